@@ -301,94 +301,100 @@ def _scenario(ctx, cls, kind, expected, plans, n_chunks, query=False,
             restore()
     outcomes, _i = extract(world, thunk, depth=6)
     notes = inexact_notes(outcomes)
-    if notes or len(outcomes) != 1:
+    if notes or not outcomes:
         rep.undecided('R6.2', key, '%s: %d paths, notes %s' % (
             label, len(outcomes), notes))
         return
-    o = outcomes[0]
-    want_delivered, want_fed, want_out, at = reference(plans, expected,
-                                                       n_chunks)
-    delivered = [e for e in o.effects if e[0] == 'delivered']
-    # R6.1 identity of delivered chunks
-    ok = all(e[2] == (K(b'') if e[1].v in empties else
-                      T('sym', 'chunk%d' % e[1].v)) for e in delivered)
-    rep.check('R6.1', key + ':identity', ok,
-              '%s: delivered %s' % (label, [show(e[2]) for e in delivered]),
-              case=label)
-    fed = {}
-    for e in o.effects:
-        if e[0] == 'eat':
-            fed.setdefault(e[1], []).append(e[2])
-    def idx(x, pos, seq):
-        if isinstance(x, T) and x.op == 'sym' and \
-                str(x.args[0]).startswith('chunk') and \
-                str(x.args[0])[5:].isdigit():
-            return int(x.args[0][5:])
-        if x == K(b'') and empties:
-            # the k-th empty chunk this inspector saw
-            seen = [j for j in range(n_chunks)
-                    if j in empties or True]
-            before = [idx(y, 0, ()) for y in seq[:pos]]
-            cand = [j for j in sorted(empties)
-                    if j not in before and all(
-                        isinstance(b, int) and b < j or b in empties
-                        for b in before)]
-            return cand[0] if cand else show(x)
-        return show(x)
-    got_fed = {}
-    for n in plans:
-        seq = fed.get(n, [])
-        out = []
-        for pos, x in enumerate(seq):
-            out.append(idx(x, pos, seq))
-        got_fed[n] = out
-    rep.case({'case': label, 'outcome': o.brief(),
-              'fed': {k: v for k, v in got_fed.items()}},
-             (key, o.kind, tuple(sorted((k, tuple(v)) for k, v in
-                                        got_fed.items()))))
-    if want_out[0] == 'done':
-        good = o.kind == 'return' and len(delivered) == n_chunks and \
-            got_fed == want_fed
-        rep.check('R6.2', key, good,
-                  '%s: required every chunk delivered and inspectors fed '
-                  '%s; found %s, %d delivered, fed %s' % (
-                      label, want_fed, o.brief(), len(delivered), got_fed),
+
+    def judge(o):
+        want_delivered, want_fed, want_out, at = reference(plans, expected,
+                                                           n_chunks)
+        delivered = [e for e in o.effects if e[0] == 'delivered']
+        # R6.1 identity of delivered chunks
+        ok = all(e[2] == (K(b'') if e[1].v in empties else
+                          T('sym', 'chunk%d' % e[1].v)) for e in delivered)
+        rep.check('R6.1', key + ':identity', ok,
+                  '%s: delivered %s' % (label, [show(e[2]) for e in delivered]),
                   case=label)
-        if kind == 'iter':
-            stops = [e for e in o.effects if e[0] == 'stop']
-            fin = [e[1] for e in o.effects if e[0] == 'finish']
-            alive = set(n for n in plans if not plans[n].get('fault'))
-            rep.check('R6.4', key + ':eof', len(stops) == 1 and
-                      stops[0][1] == T('exc', 'StopIteration') and
-                      set(fin) >= alive,
-                      '%s: at EOF StopIteration is re-raised after every '
-                      'inspector was finished (finished: %s)' % (label, fin))
-        closes = [e for e in o.effects if e[0] == 'source.close']
-        rep.check('R6.4', key + ':close', len(closes) == 1,
-                  '%s: close() closes the source' % label)
-    else:
-        reads = [e for e in o.effects if e[0] in ('source.read',
-                                                  'source.next')]
-        if want_out[1] == 'ImageFormatError':
-            exc_ok = o.kind == 'raise' and o.exc_class == 'ImageFormatError'
-        else:
-            exc_ok = o.kind == 'raise' and isinstance(o.value, Obj) and \
-                o.value.label == want_out[1]
-        good = exc_ok and len(delivered) == want_delivered and \
-            len(reads) == at + 1
-        # inspectors visited before the expected one in the same chunk are
-        # fed, the others may or may not be (set iteration order)
+        fed = {}
+        for e in o.effects:
+            if e[0] == 'eat':
+                fed.setdefault(e[1], []).append(e[2])
+        def idx(x, pos, seq):
+            if isinstance(x, T) and x.op == 'sym' and \
+                    str(x.args[0]).startswith('chunk') and \
+                    str(x.args[0])[5:].isdigit():
+                return int(x.args[0][5:])
+            if x == K(b'') and empties:
+                # the k-th empty chunk this inspector saw
+                seen = [j for j in range(n_chunks)
+                        if j in empties or True]
+                before = [idx(y, 0, ()) for y in seq[:pos]]
+                cand = [j for j in sorted(empties)
+                        if j not in before and all(
+                            isinstance(b, int) and b < j or b in empties
+                            for b in before)]
+                return cand[0] if cand else show(x)
+            return show(x)
+        got_fed = {}
         for n in plans:
-            g, w = got_fed[n], want_fed[n]
-            if not (g == w or (n != expected and g == w[:-1]) or
-                    (n != expected and w == g[:-1])):
-                good = False
-        rep.check('R6.2', key, good,
-                  '%s: required %s at chunk %d after %d delivered chunks '
-                  'and no further source read; found %s, %d delivered, %d '
-                  'source reads, fed %s' % (
-                      label, want_out, at, want_delivered, o.brief(),
-                      len(delivered), len(reads), got_fed), case=label)
+            seq = fed.get(n, [])
+            out = []
+            for pos, x in enumerate(seq):
+                out.append(idx(x, pos, seq))
+            got_fed[n] = out
+        rep.case({'case': label, 'outcome': o.brief(),
+                  'fed': {k: v for k, v in got_fed.items()}},
+                 (key, o.kind, tuple(sorted((k, tuple(v)) for k, v in
+                                            got_fed.items()))))
+        if want_out[0] == 'done':
+            good = o.kind == 'return' and len(delivered) == n_chunks and \
+                got_fed == want_fed
+            rep.check('R6.2', key, good,
+                      '%s: required every chunk delivered and inspectors fed '
+                      '%s; found %s, %d delivered, fed %s' % (
+                          label, want_fed, o.brief(), len(delivered), got_fed),
+                      case=label)
+            if kind == 'iter':
+                stops = [e for e in o.effects if e[0] == 'stop']
+                fin = [e[1] for e in o.effects if e[0] == 'finish']
+                alive = set(n for n in plans if not plans[n].get('fault'))
+                rep.check('R6.4', key + ':eof', len(stops) == 1 and
+                          stops[0][1] == T('exc', 'StopIteration') and
+                          set(fin) >= alive,
+                          '%s: at EOF StopIteration is re-raised after every '
+                          'inspector was finished (finished: %s)' % (label, fin))
+            closes = [e for e in o.effects if e[0] == 'source.close']
+            rep.check('R6.4', key + ':close', len(closes) == 1,
+                      '%s: close() closes the source' % label)
+        else:
+            reads = [e for e in o.effects if e[0] in ('source.read',
+                                                      'source.next')]
+            if want_out[1] == 'ImageFormatError':
+                exc_ok = o.kind == 'raise' and o.exc_class == 'ImageFormatError'
+            else:
+                exc_ok = o.kind == 'raise' and isinstance(o.value, Obj) and \
+                    o.value.label == want_out[1]
+            good = exc_ok and len(delivered) == want_delivered and \
+                len(reads) == at + 1
+            # inspectors visited before the expected one in the same chunk are
+            # fed, the others may or may not be (set iteration order)
+            for n in plans:
+                g, w = got_fed[n], want_fed[n]
+                if not (g == w or (n != expected and g == w[:-1]) or
+                        (n != expected and w == g[:-1])):
+                    good = False
+            rep.check('R6.2', key, good,
+                      '%s: required %s at chunk %d after %d delivered chunks '
+                      'and no further source read; found %s, %d delivered, %d '
+                      'source reads, fed %s' % (
+                          label, want_out, at, want_delivered, o.brief(),
+                          len(delivered), len(reads), got_fed), case=label)
+
+    # every path (e.g. both answers of an identity test on equal strings)
+    # is held to the same expectations
+    for o_ in outcomes:
+        judge(o_)
 
 
 def _finish_never_raises(ctx):
